@@ -80,6 +80,15 @@ fn short(name: &'static str) -> &'static str {
     name.rsplit("::").next().unwrap_or(name)
 }
 
+/// The engine has two locks around `()`: the writer mutex and the publication RwLock.
+fn lock_name(kind: SyncKind, name: &'static str) -> &'static str {
+    match (name, kind) {
+        ("()", SyncKind::MutexLock) => "write_lock",
+        ("()", _) => "publish_lock",
+        _ => name,
+    }
+}
+
 impl Sched {
     pub fn new(seed: u64, mode: SchedMode, step_cap: u64, replay: Option<Vec<u16>>) -> Arc<Sched> {
         Arc::new(Sched {
@@ -326,6 +335,7 @@ impl Sched {
         if Self::tid().is_none() {
             return;
         }
+        let name = lock_name(kind, name);
         {
             let mut st = self.st.lock().unwrap();
             st.addr_name.entry(addr).or_insert(name);
@@ -373,6 +383,7 @@ impl Sched {
             std::thread::yield_now();
             return;
         };
+        let name = lock_name(kind, name);
         let mut st = self.st.lock().unwrap();
         if st.aborted.is_some() {
             drop(st);
@@ -396,6 +407,7 @@ impl Sched {
 
     pub fn lock_acquired(&self, kind: SyncKind, addr: usize, name: &'static str) {
         let Some(tid) = Self::tid() else { return };
+        let name = lock_name(kind, name);
         let mut st = self.st.lock().unwrap();
         if kind == SyncKind::RwWrite
             && let Some(w) = st.want_write.get_mut(&addr)
